@@ -56,7 +56,7 @@ LINES_SINGLE = [
     "v = [1, 2,   3]  # odd   spacing", "w = {'a': 1, 'b': (2, 3)}", "if x: y = 2", "z = x if x else 3", "def g(a, b=2): return a",
     "long_name = " + " + ".join("%d" % i for i in range(60)), "lam = lambda q: q  # <fg=red>", "n = 0x1F + 1e3 - 2j", "b = b'bytes'",
     "f = f'{x!r:>{10}}'", "x = 1\t# tab before comment", "r = r'\\d+<b>'", "pass", "", "g2 = '<b></info>'", "k = x<y>z if False else 0",
-    "class C(object): pass", "q = '''one line triple'''", "y = 2", "e = '</>'",
+    "class C(object): pass", "q = '''one line triple'''", "y = 2", "e = '</>'", "caf = '\u00fcber se\u00f1or \u00df'  # caf\u00e9",
 ]
 BLOCKS_MULTI = [
     ["doc = '''first", "second <b>line</b>", "third'''"],
@@ -119,6 +119,9 @@ def gen_module(rng):
             ])
             entry = "outer"
     fail_line = next(i for i, l in enumerate(lines) if l.endswith("#FAIL")) + 1
+    if rng.random() < 0.3:
+        # a file whose non-ASCII characters all fit one byte in Latin-1 (decoding guesses must not turn them into something else)
+        lines = ["".join(c if ord(c) < 256 else "\u00e9" for c in l) for l in lines]
     text = "\n".join(lines) + ("" if (pos == "last" or rng.random() < 0.2) else "\n")
     return dict(source=text, fail_line=fail_line, entry=entry, shape=(pos, stmt_kind, len(lines)), stmt=stmt_kind, pos=pos)
 
@@ -344,17 +347,18 @@ def judge_render(sh, env, exc, case, source, fail_line, path, available):
                 continue
             sh.count("renders")
             text = SGR.sub("", out)
-            if "<" not in msg:
-                # the part of the report that shows the message: everything in simple mode, the lines between the
-                # class name and the 'at <file>' line in full mode
-                part = text
-                if not simple:
-                    ls = text.split("\n")
-                    a = next((i for i, l in enumerate(ls) if l.strip() == cls), None)
-                    b = next((i for i, l in enumerate(ls) if a is not None and i > a and l.strip().startswith("at ")), len(ls))
-                    part = "\n".join(ls[a:b]) if a is not None else ""
-                if re.search(r"</?(b|error)>", part):
-                    sh.violate("markup-leak", rec, "the report shows style markup that is not part of the message %r: %r" % (msg[-30:], re.findall(r".{0,20}</?(?:b|error)>", part)[:2]))
+            # the part of the report that shows the message: everything in simple mode, the lines between the
+            # class name and the 'at <file>' line in full mode
+            part = text
+            if not simple:
+                ls = text.split("\n")
+                a = next((i for i, l in enumerate(ls) if l.strip() == cls), None)
+                b = next((i for i, l in enumerate(ls) if a is not None and i > a and l.strip().startswith("at ")), len(ls))
+                part = "\n".join(ls[a:b]) if a is not None else ""
+            if "\\<" in part and "\\" not in msg and "\\" not in cls:
+                sh.violate("markup-leak", rec, "the message is shown with a backslash before '<': %r" % (re.findall(r".{0,20}\\<.{0,10}", part)[:2],))
+            if "<" not in msg and re.search(r"</?(b|error)>", part):
+                sh.violate("markup-leak", rec, "the report shows style markup that is not part of the message %r: %r" % (msg[-30:], re.findall(r".{0,20}</?(?:b|error)>", part)[:2]))
             if normalise(msg) not in normalise(out):
                 sh.violate("message-missing", rec, "message %r not found in the %s report %r" % (normalise(msg)[:80], "simple" if simple else "full", normalise(out)[:200]))
             if simple:
